@@ -10,6 +10,7 @@ Proof.
   apply Z.eqb_eq in Heq. subst; auto.
 Qed.
 
+Ltac proj := cbn [ah_hi ah_sent rb_started rb_hi rb_pkts rb_size].
 Ltac sizes H := simpl in H; repeat (destruct H as [H|H]; [subst|]); try contradiction.
 
 (* ---- arithmetic of slots: size divides 2^16 (case analysis on the 16 sizes) ---- *)
@@ -120,8 +121,8 @@ Proof.
     unfold unwrap_to. cbv zeta. fold d. unfold H16.
     destruct (d <? 32768) eqn:Eh.
     + (* forward: the window advances to h + d *)
-      split; [reflexivity|]. simpl ah_hi. replace (Z.max h (h + d)) with (h + d) by lia.
-      simpl. split; [reflexivity|]. split; [unfold d; lia|]. split.
+      split; [reflexivity|]. proj. replace (Z.max h (h + d)) with (h + d) by lia.
+      proj. split; [reflexivity|]. split; [unfold d; lia|]. split.
       * intros u x [Hin|Hin]; [inversion Hin; subst; split; [lia|unfold d; lia]|].
         apply Hsent in Hin. lia.
       * intros k Hk. rewrite slot_get_set, lookup_cons.
@@ -150,12 +151,12 @@ Proof.
       rewrite Ek.
       destruct (65536 - d >=? S) eqn:Eo.
       * (* older than the window: ignored *)
-        split; [exact Hsz|]. simpl ah_hi. replace (Z.max h (h + d - 65536)) with h by lia.
-        simpl. split; [exact Hst|]. split; [exact Hhi|]. split.
+        split; [exact Hsz|]. proj. replace (Z.max h (h + d - 65536)) with h by lia.
+        proj. split; [exact Hst|]. split; [exact Hhi|]. split.
         { intros u x [Hin|Hin]; [inversion Hin; subst; split; [lia|unfold d; lia]|]. apply Hsent; auto. }
         { intros k Hk. rewrite lookup_cons. replace (h + d - 65536 =? h - k) with false by lia. apply Hwin; auto. }
-      * split; [reflexivity|]. simpl ah_hi. replace (Z.max h (h + d - 65536)) with h by lia.
-        simpl. split; [reflexivity|]. split; [exact Hhi|]. split.
+      * split; [reflexivity|]. proj. replace (Z.max h (h + d - 65536)) with h by lia.
+        proj. split; [reflexivity|]. split; [reflexivity|]. split.
         { intros u x [Hin|Hin]; [inversion Hin; subst; split; [lia|unfold d; lia]|]. apply Hsent; auto. }
         { intros k Hk. rewrite slot_get_set, lookup_cons.
           assert (Es : slot S p = (h - (65536 - d)) mod S).
@@ -168,7 +169,7 @@ Proof.
             symmetry. apply (window_inj S h (65536 - d) k HS); try lia. }
   - (* first packet *)
     destruct HI as (Hst & Hpk & Hse). rewrite Hst, Hpk. simpl negb. cbv iota.
-    split; [reflexivity|]. simpl. split; [reflexivity|]. split; [lia|]. split.
+    split; [reflexivity|]. proj. split; [reflexivity|]. split; [lia|]. split.
     + intros u x [Hin|[]]. inversion Hin; subst. lia.
     + intros k Hk. rewrite slot_get_set, lookup_cons.
       assert (Es : slot S p = (rp_seq p - 0) mod S) by (unfold slot; f_equal; lia).
@@ -237,4 +238,118 @@ Proof.
   destruct (_ >=? H16); [discriminate|]. destruct (_ >=? rb_size b); [discriminate|].
   destruct (slot_get _ _ _) as [q|]; [|discriminate].
   destruct (rp_seq q =? seq) eqn:E; [|discriminate]. intros H; inversion H; subst. lia.
+Qed.
+
+(* ---- the designated packet in the vocabulary of the full send history ---- *)
+Definition RelX (ax a : ahist rp) : Prop :=
+  ah_hi ax = ah_hi a /\ incl (ah_sent ax) (ah_sent a) /\
+  (forall u x, In (u, x) (ah_sent a) -> exists y, In (u, y) (ah_sent ax)) /\
+  (forall h, ah_hi a = Some h -> exists y, In (h, y) (ah_sent ax)).
+
+Lemma RelX_empty : RelX ah_empty ah_empty.
+Proof.
+  split; [reflexivity|]. split; [intros e []|]. split; [intros ? ? []|discriminate].
+Qed.
+
+Lemma RelX_step ax a o : RelX ax a -> RelX (ah_step_x ax o) (ah_step a o).
+Proof.
+  intros (Hhi & Hinc & Hex & Htop). destruct o as [p|]; simpl.
+  2:{ apply RelX_empty. }
+  unfold ah_add_x, ah_add. rewrite Hhi. destruct (ah_hi a) as [h|] eqn:Hh.
+  - destruct ((rp_seq p - h) mod 65536 =? 0) eqn:E0.
+    + assert (Eu : unwrap_to h (rp_seq p) = h) by (unfold unwrap_to; cbv zeta; destruct (_ <? _) eqn:?; lia).
+      rewrite Eu. replace (Z.max h h) with h by lia.
+      split; [simpl; congruence|]. split; [simpl; intros e He; right; auto|]. split; simpl.
+      * intros u x [Hin|Hin]; [inversion Hin; subst; apply Htop; auto|eapply Hex; eauto].
+      * intros h' Hh'. inversion Hh'; subst. apply Htop; auto.
+    + split; [reflexivity|]. split; [simpl; intros e [He|He]; [left; auto|right; auto]|]. split; simpl.
+      * intros u x [Hin|Hin]; [inversion Hin; subst; eexists; left; reflexivity|].
+        destruct (Hex u x Hin) as [y Hy]. exists y; auto.
+      * intros h' Hh'. inversion Hh'; subst.
+        destruct (Z.max_spec h (unwrap_to h (rp_seq p))) as [[_ ->]|[_ ->]].
+        { eexists; left; reflexivity. }
+        { destruct (Htop h eq_refl) as [y Hy]. exists y; auto. }
+  - split; [reflexivity|]. split; [simpl; intros e He; auto|]. split; simpl.
+    + intros u x [Hin|[]]. inversion Hin; subst. eexists; left; reflexivity.
+    + intros h' Hh'. inversion Hh'; subst. eexists; left; reflexivity.
+Qed.
+
+Lemma RelX_run ops : forall ax a, RelX ax a -> RelX (fold_left ah_step_x ops ax) (fold_left ah_step ops a).
+Proof. induction ops as [|o ops IH]; intros; simpl; auto. apply IH, RelX_step; auto. Qed.
+
+Lemma lookup_none_iff u (sent : list (Z * rp)) : lookup u sent = None <-> forall x, ~ In (u, x) sent.
+Proof.
+  induction sent as [|[v y] r IH]; simpl.
+  - split; auto.
+  - rewrite lookup_cons. destruct (v =? u) eqn:E.
+    + apply Z.eqb_eq in E; subst. split; [discriminate|]. intros H. exfalso. apply (H y). auto.
+    + rewrite IH. split; intros H x.
+      * intros [Hin|Hin]; [inversion Hin; lia|apply (H x); auto].
+      * intros Hin. apply (H x). auto.
+Qed.
+
+Lemma candidates_In S (a : ahist rp) seq x :
+  In x (candidates S a seq) <-> exists u, in_window S a seq = Some u /\ In (u, x) (ah_sent a).
+Proof.
+  unfold candidates. destruct (in_window S a seq) as [u|].
+  - rewrite in_map_iff. split.
+    + intros [[v y] [Hy Hin]]. simpl in Hy; subst. apply filter_In in Hin as [Hin Hv]. simpl in Hv.
+      apply Z.eqb_eq in Hv; subst. eauto.
+    + intros [u' [Hu Hin]]. inversion Hu; subst. exists (u', x). split; auto.
+      apply filter_In. split; auto. simpl. lia.
+  - simpl. split; [tauto|]. intros [u [H _]]. discriminate.
+Qed.
+
+(* the retransmitted packet is one of the packets sent with the requested
+   number inside the window; nothing is retransmitted iff there is none *)
+Lemma designated_candidates S ax a seq : RelX ax a ->
+  (forall p, designated S ax seq = Some p -> In p (candidates S a seq)) /\
+  (designated S ax seq = None <-> candidates S a seq = []).
+Proof.
+  intros (Hhi & Hinc & Hex & _).
+  assert (Hw : in_window S ax seq = in_window S a seq) by (unfold in_window; rewrite Hhi; reflexivity).
+  split.
+  - intros p. unfold designated. rewrite Hw. intros H. apply candidates_In.
+    destruct (in_window S a seq) as [u|]; [|discriminate]. exists u. split; auto.
+    apply Hinc. apply lookup_In. exact H.
+  - unfold designated. rewrite Hw. split.
+    + intros H. destruct (candidates S a seq) as [|x l] eqn:Ec; [reflexivity|]. exfalso.
+      assert (Hx : In x (candidates S a seq)) by (rewrite Ec; left; reflexivity).
+      apply candidates_In in Hx as [u [Hu Hin]]. rewrite Hu in H.
+      destruct (Hex u x Hin) as [y Hy]. rewrite lookup_none_iff in H. apply (H y Hy).
+    + intros Hc. destruct (in_window S a seq) as [u|] eqn:Hu; [|reflexivity].
+      apply lookup_none_iff. intros x Hin. apply Hinc in Hin.
+      assert (Hx : In x (candidates S a seq)) by (apply candidates_In; exists u; rewrite Hu; auto).
+      rewrite Hc in Hx. destruct Hx.
+Qed.
+
+(* every recorded send is an Add of the history *)
+Lemma sent_from_ops ops : forall a u x, In (u, x) (ah_sent (fold_left ah_step ops a)) ->
+  In (u, x) (ah_sent a) \/ In (HAdd x) ops.
+Proof.
+  induction ops as [|o ops IH]; intros a u x H; simpl in *; auto.
+  apply IH in H as [H|H]; auto. destruct o as [p|]; simpl in H.
+  - unfold ah_add in H. destruct (ah_hi a); simpl in H.
+    + destruct H as [H|H]; auto. inversion H; subst; auto.
+    + destruct H as [H|[]]. inversion H; subst; auto.
+  - destruct H.
+Qed.
+
+Theorem get_sent S ops seq p : valid_size S = true -> Forall hop_ok ops -> 0 <= seq < 65536 ->
+  rb_get (fold_left rb_step ops (mkRB S [] 0 false)) seq = Some p ->
+  In (HAdd p) ops /\ rp_seq p = seq /\ In p (candidates S (fold_left ah_step ops ah_empty) seq).
+Proof.
+  intros HS Hops Hq H. pose proof (rb_get_seq _ _ _ H) as Hs.
+  rewrite get_exact in H by auto.
+  destruct (designated_candidates S _ _ seq (RelX_run ops _ _ RelX_empty)) as [Hc _].
+  apply Hc in H. split; [|split; auto].
+  apply candidates_In in H as [u [_ Hin]]. apply sent_from_ops in Hin as [[]|Hin]. exact Hin.
+Qed.
+
+Theorem get_none_iff S ops seq : valid_size S = true -> Forall hop_ok ops -> 0 <= seq < 65536 ->
+  (rb_get (fold_left rb_step ops (mkRB S [] 0 false)) seq = None <->
+   candidates S (fold_left ah_step ops ah_empty) seq = []).
+Proof.
+  intros HS Hops Hq. rewrite get_exact by auto.
+  apply (designated_candidates S _ _ seq (RelX_run ops _ _ RelX_empty)).
 Qed.
